@@ -226,7 +226,7 @@ pub fn run(ctx: &Ctx) -> Outcome {
         });
     }
     if want("small") {
-        let (lo, hi) = range(ctx.tier.pick(3000, 200_000));
+        let (lo, hi) = range(ctx.tier.pick(12_000, 200_000));
         run_cases(&mut acc, "small", hi - lo, |i| {
             let i = i + lo;
             let mut rng = Rng::derive(seed, "c01-small", i);
@@ -240,7 +240,7 @@ pub fn run(ctx: &Ctx) -> Outcome {
         });
     }
     if want("sqlite") {
-        let (lo, hi) = range(ctx.tier.pick(60, 3000));
+        let (lo, hi) = range(ctx.tier.pick(200, 3000));
         run_cases(&mut acc, "sqlite", hi - lo, |i| {
             let i = i + lo;
             let mut rng = Rng::derive(seed, "c01-sqlite", i);
@@ -256,7 +256,7 @@ pub fn run(ctx: &Ctx) -> Outcome {
     if want("late-joiner") {
         // the server holds a snapshot; a replica that has never synchronized makes local changes
         // to the same tasks (often ones that cancel out: create + delete) and only then joins
-        let (lo, hi) = range(ctx.tier.pick(150, 6000));
+        let (lo, hi) = range(ctx.tier.pick(500, 6000));
         run_cases(&mut acc, "late-joiner", hi - lo, |i| {
             let i = i + lo;
             let mut rng = Rng::derive(seed, "c01-late", i);
@@ -301,7 +301,7 @@ pub fn run(ctx: &Ctx) -> Outcome {
         });
     }
     if want("bigvalue") {
-        let (lo, hi) = range(ctx.tier.pick(60, 3000));
+        let (lo, hi) = range(ctx.tier.pick(200, 3000));
         run_cases(&mut acc, "bigvalue", hi - lo, |i| {
             let i = i + lo;
             let mut rng = Rng::derive(seed, "c01-big", i);
